@@ -404,6 +404,7 @@ func checkC10(c *Check) {
 	c.Rule("R3", "header, body and envelope pass through the queue unmodified: parameters reach the file writer / the downstream target with no intervening store or mutating call; reader and writer use the same file roles; no size-limiting reader on the way back", 8)
 	c10Bytes(c)
 	c10FirstAttempt(c)
+	c10Recipients(c)
 }
 
 type packagesPkg = packagesPackage
@@ -889,6 +890,115 @@ func mutates(info *types.Info, n ast.Node, obj types.Object) bool {
 			}
 		}
 		return true
+	})
+	return found
+}
+
+// c10Recipients: "the recipients still pending" start as the recipients the queue said yes to. queueDelivery.AddRcpt
+// answers 250 by returning nil: every such return comes after the append of exactly the address it was given – a
+// de-duplication by an equivalence (address.Equal folds the case of the local part, which is significant for foreign
+// domains) drops a recipient that was acknowledged. And the per-recipient failures of an attempt are looked up by the
+// queue under the very string it passed to the target: partialError.SetStatus files the error under the key it was
+// called with, unmodified – under any other spelling the failure is not found and the recipient counts as delivered.
+func c10Recipients(c *Check) {
+	c.Rule("R5", "queueDelivery.AddRcpt: every accepting return is preceded by the append of the unmodified recipient parameter to the pending list", 1)
+	if r := c.need("R5", queueRel, "queueDelivery", "AddRcpt"); r != nil {
+		info := r.Info
+		var rcpt types.Object
+		sig := r.FI.Obj.Type().(*types.Signature)
+		for i := 0; i < sig.Params().Len(); i++ {
+			if types.Identical(sig.Params().At(i).Type(), types.Typ[types.String]) {
+				rcpt = sig.Params().At(i)
+			}
+		}
+		app := r.Assigns(func(l, rhs ast.Expr) bool {
+			fv := fieldOf(info, l)
+			if fv == nil || objName(fv) != "To" || rhs == nil {
+				return false
+			}
+			call, ok := ast.Unparen(rhs).(*ast.CallExpr)
+			if !ok || len(call.Args) != 2 {
+				return false
+			}
+			id, isID := call.Fun.(*ast.Ident)
+			return isID && id.Name == "append" && fieldOf(info, call.Args[0]) == fv && rcpt != nil && objOf(info, call.Args[1]) == rcpt
+		})
+		msg := ""
+		if len(app) == 0 {
+			msg = "the recipient parameter is not appended to the pending list"
+		} else if ok, w := r.MustPass(r.Entry(), true, r.IsSuccessReturn, isPt(app)); !ok {
+			msg = "AddRcpt can accept a recipient (return nil) without putting it on the pending list: the client got 250, the address is in no attempt, not in the spool and in no failure report: " + w
+		} else if rcpt != nil && assignedAnywhere(info, r.FI.Decl.Body, rcpt) {
+			msg = "the recipient parameter is modified before it is stored"
+		}
+		c.Hold("R5", "queueDelivery.AddRcpt:stored", r.FI.Decl.Pos(), msg == "", msg)
+	}
+	c.Rule("R6", "partialError.SetStatus files a failure under exactly the key it was called with (tryDelivery looks the recipient up by the string it handed to the target)", 1)
+	if r := c.need("R6", queueRel, "partialError", "SetStatus"); r != nil {
+		info := r.Info
+		sig := r.FI.Obj.Type().(*types.Signature)
+		var key types.Object
+		if sig.Params().Len() >= 1 {
+			key = sig.Params().At(0)
+		}
+		msg := ""
+		n := 0
+		ast.Inspect(r.FI.Decl.Body, func(x ast.Node) bool {
+			as, ok := x.(*ast.AssignStmt)
+			if !ok {
+				return true
+			}
+			for _, l := range as.Lhs {
+				ix, ok := ast.Unparen(l).(*ast.IndexExpr)
+				if !ok {
+					continue
+				}
+				if fv := fieldOf(info, ix.X); fv == nil || objName(fv) != "Errs" {
+					continue
+				}
+				n++
+				if objOf(info, ix.Index) != key {
+					msg = "the failure is filed under " + exprStr(ix.Index) + ", not under the key parameter"
+				}
+			}
+			return true
+		})
+		if n == 0 {
+			msg = "undecided: no store into the error table"
+		} else if key != nil && assignedAnywhere(info, r.FI.Decl.Body, key) {
+			msg = "the key parameter is rewritten (normalised, converted) before the failure is filed: tryDelivery looks the recipient up under the spelling it passed to the target, does not find the failure and counts the recipient as delivered – no retry, no failure report"
+		}
+		c.Hold("R6", "partialError.SetStatus:key", r.FI.Decl.Pos(), msg == "", msg)
+	}
+}
+
+// assignedAnywhere: obj is the target of an assignment, inc/dec or range clause somewhere in body, or its address is taken.
+func assignedAnywhere(info *types.Info, body ast.Node, obj types.Object) bool {
+	found := false
+	ast.Inspect(body, func(x ast.Node) bool {
+		switch y := x.(type) {
+		case *ast.AssignStmt:
+			for _, l := range y.Lhs {
+				if id, ok := ast.Unparen(l).(*ast.Ident); ok && (info.Uses[id] == obj || info.Defs[id] == obj) {
+					found = true
+				}
+			}
+		case *ast.IncDecStmt:
+			if id, ok := ast.Unparen(y.X).(*ast.Ident); ok && info.Uses[id] == obj {
+				found = true
+			}
+		case *ast.RangeStmt:
+			for _, e := range []ast.Expr{y.Key, y.Value} {
+				if id, ok := e.(*ast.Ident); ok && (info.Uses[id] == obj || info.Defs[id] == obj) {
+					found = true
+				}
+			}
+		case *ast.UnaryExpr:
+			if id, ok := ast.Unparen(y.X).(*ast.Ident); ok && y.Op == token.AND && info.Uses[id] == obj {
+				found = true
+			}
+		}
+		return !found
 	})
 	return found
 }
